@@ -6,7 +6,7 @@ from vlib.engine import Disc, Outcome
 from checks import c08
 
 PID = 'C13'
-RULE = ('Hypothesis: client kind (tcp, serial rtu / ascii / binary, udp) x retry settings (retries 0..3, retry_on_empty, '
+RULE = ('Hypothesis: client kind (tcp, serial rtu / ascii / binary, udp, RTU- and ASCII-framer over TCP) x retry settings (retries 0..3, retry_on_empty, '
         'retry_on_invalid, backoff) x request kind x a fault script with one behaviour per transmission (full reply, exception '
         'reply, nothing, first k bytes, garbage, a well-framed reply with an undecodable PDU, reply for another unit, stale reply of another transaction, late reply '
         'delivered after the timeout, OSError on send, OSError on receive, peer close) of length <= 5, followed by a healthy '
@@ -20,12 +20,12 @@ ASSUMPTIONS = ['failure to establish a connection is excepted by the property: t
                'virtual time: every wait happens on the harness clock; a transport-operation budget of 100000 stands for "hangs"',
                'binary transactions whose frames contain delimiter bytes are excluded (KF-BINARY-FRAMER-DELIMITER-BYTES)']
 BUDGET = {'quick': 8000, 'thorough': 12000}
-CLIENTS = ['tcp', 'rtu', 'ascii', 'binary', 'udp']
+CLIENTS = ['tcp', 'rtu', 'ascii', 'binary', 'udp', 'tcp+rtu', 'tcp+ascii']
 BEHAVIOURS = ['reply', 'exc', 'nothing', 'partial', 'garbage', 'wrong_unit', 'stale', 'late', 'oserror_send', 'oserror_recv', 'close', 'undecodable']
 
 
 def framing_of(c):
-    return {'tcp': 'tcp', 'udp': 'tcp', 'rtu': 'rtu', 'ascii': 'ascii', 'binary': 'binary'}[c]
+    return {'tcp': 'tcp', 'udp': 'tcp', 'rtu': 'rtu', 'ascii': 'ascii', 'binary': 'binary', 'tcp+rtu': 'rtu', 'tcp+ascii': 'ascii'}[c]
 
 
 @st.composite
@@ -151,6 +151,9 @@ def _mk_client(kind, case):
         return ModbusTcpClient('peer', 502, **kw)
     if kind == 'udp':
         return ModbusUdpClient('peer', 502, **kw)
+    if kind in ('tcp+rtu', 'tcp+ascii'):
+        from pymodbus.transaction import ModbusRtuFramer, ModbusAsciiFramer
+        return ModbusTcpClient('peer', 502, framer=ModbusRtuFramer if kind == 'tcp+rtu' else ModbusAsciiFramer, **kw)
     return ModbusSerialClient(method=kind, port='/dev/null', baudrate=19200, **kw)
 
 
